@@ -63,6 +63,13 @@ def prop(case, rec):
 # -- route (c): MibCompiler.compile() status attributes ---------------------------------------------
 
 
+@st.composite
+def compile_cases(draw):
+    c = draw(cases())
+    c['mode'] = draw(st.sampled_from(('all', 'all', 'top', 'top-noDeps')))
+    return c
+
+
 def compile_prop(case, rec):
     from pysmi.compiler import MibCompiler
     from pysmi.reader.callback import CallbackReader
@@ -86,8 +93,25 @@ def compile_prop(case, rec):
     comp.addSources(CallbackReader(read))
     comp.addSearchers(StubSearcher(*fixtures.BASE_MODULES))
     top = mset['modules'][-1]['name']
+    mode = case.get('mode', 'all')
+    rec.count('compile.mode.' + mode)
+    # the modules the request reaches through IMPORTS
+    byname = dict((m['name'], m) for m in mset['modules'])
+    reach, todo = [], [top]
+    while todo:
+        n = todo.pop()
+        if n in reach or n not in byname:
+            continue
+        reach.append(n)
+        todo += [frm for frm, syms in byname[n]['imports']]
     try:
-        res = comp.compile(*[m['name'] for m in mset['modules']])
+        if mode == 'all':
+            res = comp.compile(*[m['name'] for m in mset['modules']])
+        elif mode == 'top':
+            res = comp.compile(top)
+        else:
+            # only the requested module is generated, its dependencies (however deep) are still read
+            res = comp.compile(top, noDeps=True)
     except Exception as e:
         raise Violation('compile-raised', repr(e), case, {'texts': texts})
     rec.evaluated()
@@ -95,6 +119,13 @@ def compile_prop(case, rec):
     for m in mset['modules']:
         name = m['name']
         stt = res.get(name)
+        if mode != 'all' and name not in reach:
+            continue
+        if mode == 'top-noDeps' and name != top:
+            if stt != 'untouched':
+                raise Violation('compile-status', '%s: dependency under noDeps has status %r (error %r)' % (
+                    name, stt, getattr(stt, 'error', None)), case, {'texts': texts})
+            continue
         if stt != 'compiled':
             raise Violation('compile-failed', '%s: status %r error %r' % (name, stt, getattr(stt, 'error', None)),
                             case, {'texts': texts})
@@ -149,7 +180,7 @@ def probes(ctx):
 
 def run(ctx):
     ctx.search('codegen', cases, prop, ctx.pick(1600, 40000))
-    ctx.search('compile', cases, compile_prop, ctx.pick(1600, 30000))
+    ctx.search('compile', compile_cases, compile_prop, ctx.pick(1600, 30000))
     probes(ctx)
 
 
